@@ -446,6 +446,10 @@ func judge(who string, content []byte, h string, o obs) kit.Verdict {
 		v.Addf(sig("panic"), "Range %q over %d bytes of content: panic: %s", h, n, o.Panic)
 		return v
 	}
+	if o.Status == -1 {
+		v.Addf("C20/"+who+"/json-config/rejected", "parse.FromJSON rejects the documented configuration of the modifier (%d bytes of content): %v", n, o.Err)
+		return v
+	}
 	if bytes.Contains(o.Body, upstreamMarker) {
 		v.Addf(sig("upstream-bytes-served"), "Range %q over %d bytes: the answer (status %d) carries bytes of the body that was to be replaced", h, n, o.Status)
 	}
@@ -529,7 +533,12 @@ func judge206(sig func(string) string, content []byte, h string, p *parsed, sat 
 		v.Addf(sig("206-with-unreadable-body"), "Range %q over %d bytes: 206 whose body cannot be read: %v", h, n, o.BodyErr)
 		return v
 	}
-	mt, params, _ := mime.ParseMediaType(o.Header.Get("Content-Type"))
+	ct := o.Header.Get("Content-Type")
+	mt, params, cterr := mime.ParseMediaType(ct)
+	if strings.HasPrefix(strings.ToLower(strings.TrimSpace(ct)), "multipart/byteranges") && (cterr != nil || params["boundary"] == "") {
+		v.Addf(sig("multipart-boundary-unusable"), "Range %q over %d bytes: 206 with Content-Type %q: no usable boundary parameter (%v), the %d-byte body (starting %q) cannot be split into parts", h, n, ct, cterr, len(o.Body), trunc(o.Body, 40))
+		return v
+	}
 	if mt != "multipart/byteranges" {
 		// single-range form
 		if len(sat) != 1 {
